@@ -61,6 +61,8 @@ def run(ctx):
         # the driver gave up waiting (overloaded machine, or the code stopped making requests): not judged
         if len(hangs) > max(3, len(traces) // 20):
             raise vlib.InfraError("%d of %d scenarios timed out in the driver" % (len(hangs), len(traces)))
+        ctx.drift.append("%d scenario(s) were given up by the driver (no request and no return for 30 s) and are not "
+                         "judged; first scn=%s" % (len(hangs), hangs[0][0].get("scn")))
         events = [e for t in traces if t not in hangs for e in t]
         traces = [t for t in traces if t not in hangs]
     unused = [t[0] for t in traces if t[0].get("unused_steps")]
